@@ -58,7 +58,7 @@ class Mismatch:
         :param details: Extra details about the mismatch.  Defaults
             to the empty dict.
         """
-        if description:
+        if description is not None:
             self._description = description
         if details is None:
             details = {}
